@@ -52,6 +52,8 @@ def run(ctx):
     c_rewritten_text(ctx, flows)
     c_raw_readers(ctx)
     c_triggers(ctx, flows)
+    c_raw_request(ctx)
+    b_param_binding(ctx)
     scope, nm = _railrules.reject_stop(ctx, "C01.d.reject-stop", ("input", "generic", "retrieval"))
     ctx.stat("blocking_flows_in_scope", len(scope))
     ctx.floor("C01.d.reject-stop", "nemoguardrails/library", "rejection markers in input/generic/retrieval rails", nm, 20)
@@ -464,3 +466,96 @@ def e_v2(ctx):
                               "binds a user utterance event: %s" % ("member of the overridden family" if fam else
                                                                      V2_TEXT_MATCH_ALLOW.get((rel, f.name), "NOT in the overridden family: its text is read without input rails")),
                               line=s.line)
+
+
+# ---------------------------------------------------------------------------------
+GEN1 = "nemoguardrails/actions/llm/generation.py"
+ALIAS_PRESERVING = ("copy", "list", "")  # X.copy(), list(X), X[:]  keep the element dicts shared
+
+
+def _is_rewritten_text(e):
+    """event["text"] (text of the UserMessage event = the rails' rewritten text)"""
+    return isinstance(e, ast.Subscript) and isinstance(e.slice, ast.Constant) and e.slice.value == "text" and isinstance(e.value, ast.Name)
+
+
+def c_raw_request(ctx):
+    """The raw request (raw_llm_request context variable) is a second channel that carries the
+    un-rewritten user text into the Colang-1 prompt path.  Every prompt built from it must have
+    its last user message overwritten with the rewritten text, through an alias that really
+    reaches the prompt object."""
+    t = ctx.tree.ast(GEN1)
+    n_sites = 0
+    for fn in functions(t):
+        reads = [a for a in walk_no_nested(fn) if isinstance(a, ast.Assign) and isinstance(a.value, ast.Call) and src(a.value.func) == "raw_llm_request.get"
+                 and isinstance(a.targets[0], ast.Name)]
+        for rd in reads:
+            n_sites += 1
+            R = rd.targets[0].id
+            cfg = CFG(fn)
+            # prompt variables handed to llm_call
+            calls = [c for c in walk_no_nested(fn) if isinstance(c, ast.Call) and src(c.func) == "llm_call" and len(c.args) >= 2 and isinstance(c.args[1], ast.Name)]
+            for c in calls:
+                P = c.args[1].id
+                defs = [a for a in walk_no_nested(fn) if isinstance(a, ast.Assign) and len(a.targets) == 1 and isinstance(a.targets[0], ast.Name) and a.targets[0].id == P
+                        and any(isinstance(n, ast.Name) and n.id == R for n in ast.walk(a.value))]
+                for d in defs:
+                    v = d.value
+                    alias = False
+                    if isinstance(v, ast.Name):
+                        alias = True
+                    elif isinstance(v, ast.Call) and isinstance(v.func, ast.Attribute) and v.func.attr == "copy" and isinstance(v.func.value, ast.Name) and not v.args:
+                        alias = True   # shallow copy: the message dicts are shared
+                    elif isinstance(v, ast.Call) and src(v.func) == "list":
+                        alias = True
+                    elif isinstance(v, ast.Subscript) and isinstance(v.slice, ast.Slice):
+                        alias = True
+                    holders = {P} | ({R} if alias else set())
+                    dn = cfg.node_of(d)
+                    cn = cfg.node_of(c)
+                    if cn not in cfg.reachable([dn]):
+                        continue  # another llm_call of the function, not fed by this definition
+                    stores = [n for n in cfg.nodes if n.kind == "stmt" and isinstance(n.ast, ast.Assign) and isinstance(n.ast.targets[0], ast.Subscript)
+                              and isinstance(n.ast.targets[0].slice, ast.Constant) and n.ast.targets[0].slice.value == "content"
+                              and isinstance(n.ast.targets[0].value, ast.Subscript) and src(n.ast.targets[0].value.slice) == "-1"
+                              and isinstance(n.ast.targets[0].value.value, ast.Name) and _is_rewritten_text(n.ast.value)]
+                    good = [n for n in stores if n.ast.targets[0].value.value.id in holders and n in cfg.reachable([dn]) and cn in cfg.reachable([n])]
+                    ok = bool(good)
+                    ctx.check("C01.c.raw-request", GEN1, qualname(fn), first_line(d), ok,
+                              "the prompt built from the raw request gets its last user message overwritten with the rewritten text (`%s`) through an object that reaches the prompt" % first_line(good[0].ast, 60) if ok else
+                              "prompt `%s` is built from the raw request by `%s`; the overwrite with the rewritten text goes through %s, which %s: the LLM receives the raw, un-rewritten user text" % (
+                                  P, src(v), sorted({n.ast.targets[0].value.value.id for n in stores}) or "no store at all",
+                                  "does not share its message objects with the prompt (deep copy)" if stores else "is missing"), line=d.lineno)
+                # the str case: prompt := rewritten text
+                strdefs = [a for a in walk_no_nested(fn) if isinstance(a, ast.Assign) and isinstance(a.targets[0], ast.Name) and a.targets[0].id == P and _is_rewritten_text(a.value)]
+                if defs and any(cfg.node_of(c) in cfg.reachable([cfg.node_of(d)]) for d in defs):
+                    ctx.check("C01.c.raw-request", GEN1, qualname(fn), "completion-mode prompt", bool(strdefs),
+                              "in completion mode (raw request is a string, or absent) the prompt is the rewritten text `event[\"text\"]`", line=c.lineno)
+    ctx.floor("C01.c.raw-request", GEN1, "reads of the raw request on the Colang-1 prompt path", n_sites, 1)
+
+
+def b_param_binding(ctx):
+    """Each configured rail runs with its own configured parameters: parameters parsed from a
+    parameterised flow id are stored unconditionally before the subflow starts."""
+    rel = "nemoguardrails/colang/v1_0/runtime/flows.py"
+    fn = find_function(ctx.tree.ast(rel), "_call_subflow")
+    if fn is None:
+        raise AnalysisError("_call_subflow not found", anchor=rel + "::_call_subflow")
+    gets = [a for a in walk_no_nested(fn) if isinstance(a, ast.Assign) and isinstance(a.value, ast.Call) and src(a.value.func) == "_get_flow_params" and isinstance(a.targets[0], ast.Name)]
+    ctx.floor("C01.b.param-binding", rel, "parameter extraction in _call_subflow", len(gets), 1)
+    for g in gets:
+        P = g.targets[0].id
+        blk = getattr(g, "_parent", None)
+        body = blk.body if hasattr(blk, "body") and g in blk.body else []
+        ok = False
+        for s in body:
+            if isinstance(s, ast.Expr) and isinstance(s.value, ast.Call) and isinstance(s.value.func, ast.Attribute) and s.value.func.attr == "update" \
+                    and [src(a) for a in s.value.args] == [P] and "context" in src(s.value.func.value):
+                ok = True
+            if isinstance(s, ast.For) and P in src(s.iter) and all(not isinstance(x, ast.If) for x in s.body) \
+                    and any(isinstance(x, ast.Assign) and "context" in src(x.targets[0]) for x in s.body):
+                ok = True
+        cfg = CFG(fn)
+        slide = [n for n in cfg.nodes if n.ast is not None and any(isinstance(c, ast.Call) and src(c.func) == "_slide_with_subflows" for c in walk_no_nested(n.ast))]
+        ctx.check("C01.b.param-binding", rel, "_call_subflow", first_line(g), ok and bool(slide),
+                  "all parameters of a parameterised rail id (e.g. `content safety check input $model=a`) are written to the context unconditionally before the rail flow starts" if ok else
+                  "parameters of a parameterised rail id are not written unconditionally: a second rail `... $model=b` runs with the first rail's value, so the configured rail list is not what runs", line=g.lineno)
